@@ -31,7 +31,7 @@ func init() {
 				passThrough(c, "C16")
 				returnsUndecorated(c, "C16")
 			}},
-			{ID: "C16-R3", Title: "parser totality: complete reads, errors returned, proved bounds", Decides: "parsing arbitrary bytes never panics and never yields data that was not in the input", Floor: 4, Run: func(c *core.Ctx) { c16r3(c); inputIndexGuarded(c, "util") }},
+			{ID: "C16-R3", Title: "parser totality: complete reads, errors returned, proved bounds", Decides: "parsing arbitrary bytes never panics and never yields data that was not in the input", Floor: 4, Run: func(c *core.Ctx) { c16r3(c); inputIndexGuarded(c, "util"); polarityEverywhere(c, "C16") }},
 			{ID: "C16-R4", Title: "every parsed item consumes tag, length and value", Decides: "parsing never yields data that was not set", Floor: 1, Run: c16r4},
 		},
 	})
